@@ -51,6 +51,15 @@ Definition finish (thread_excs watcher_errs : nat) (timeout_set timed_out : bool
     else if negb (rv_bool result || warn) then Raise RUnexpectedExit (Some result)
     else Return result.
 
+(** Context._sudo around the runner: a Failure whose reason (the first watcher
+    error) is the password responder's ResponseNotAccepted becomes AuthFailure
+    with the same result; everything else passes through. *)
+Definition sudo_wrap (first_is_rna : bool) (o : outcome) : outcome :=
+  match o with
+  | Raise RFailure r => if first_is_rna then Raise RAuthFailure r else o
+  | _ => o
+  end.
+
 (** The same tail as (guard, raised class) rows, in source order; compared with
     the table regenerated from invoke/runners.py on every run. *)
 Definition finish_tail_table : list (string * string) :=
